@@ -570,7 +570,7 @@ def patch_instance(mod, tty):
     mod.fcntl = world._FcntlProxy(tty)
     mod.select = tty.select
     mod.monotonic = tty.monotonic
-    mod._get_terminal_size = lambda *a, **k: tty.get_terminal_size()
+    mod._get_terminal_size = lambda *a, **k: tty.shutil_terminal_size()     # shutil's answer (stdout / COLUMNS)
 
 
 def import_state(mod):
